@@ -33,7 +33,7 @@ func loadFixture(src string) ([]*ast.File, *types.Info, *token.FileSet, error) {
 	if err != nil {
 		return nil, nil, nil, err
 	}
-	info := &types.Info{Types: map[ast.Expr]types.TypeAndValue{}, Defs: map[*ast.Ident]types.Object{}, Uses: map[*ast.Ident]types.Object{}, Selections: map[*ast.SelectorExpr]*types.Selection{}}
+	info := &types.Info{Types: map[ast.Expr]types.TypeAndValue{}, Defs: map[*ast.Ident]types.Object{}, Uses: map[*ast.Ident]types.Object{}, Selections: map[*ast.SelectorExpr]*types.Selection{}, Implicits: map[ast.Node]types.Object{}}
 	conf := types.Config{Importer: importer.ForCompiler(fset, "source", nil)}
 	if _, err := conf.Check("fixture", fset, []*ast.File{f}, info); err != nil {
 		return nil, nil, nil, err
@@ -706,4 +706,118 @@ func rulePreRegister(prog *Program, rep *Report) {
 			Msg: fmt.Sprintf("recomposition takes the element type of a reflect.%s target (%s) but registerComposer does not unwrap reflect.%s fields: a struct nested behind such a field is first registered during Recompose, which writes the composers map of a Recomposer that may be shared by goroutines", k, prog.Pos(walk[k]), k)})
 	}
 	rep.Eval(len(walk))
+}
+
+// ---------------------------------------------------------------- F-okdrop
+
+// matchOkDrop: a same-package conversion helper with results (T, bool) is called
+// with the bool discarded although nothing guarantees the conversion succeeds:
+// the zero value of T then takes part in a comparison (0 equals 0, "" equals "").
+// The discard is accepted when the argument is the value switched on by the
+// enclosing type switch (the case list already selected convertible types).
+func matchOkDrop(files []*ast.File, info *types.Info) (sites []synSite, examined int) {
+	for _, f := range files {
+		var stack []ast.Node
+		ast.Inspect(f, func(n ast.Node) bool {
+			if n == nil {
+				stack = stack[:len(stack)-1]
+				return true
+			}
+			stack = append(stack, n)
+			as, ok := n.(*ast.AssignStmt)
+			if !ok || len(as.Lhs) != 2 || len(as.Rhs) != 1 {
+				return true
+			}
+			call, ok := ast.Unparen(as.Rhs[0]).(*ast.CallExpr)
+			if !ok || len(call.Args) != 1 {
+				return true
+			}
+			id, ok := call.Fun.(*ast.Ident)
+			if !ok {
+				return true
+			}
+			fn, ok := info.Uses[id].(*types.Func)
+			if !ok {
+				return true
+			}
+			sig := fn.Type().(*types.Signature)
+			if sig.Results().Len() != 2 || sig.Recv() != nil {
+				return true
+			}
+			if b, ok := sig.Results().At(1).Type().Underlying().(*types.Basic); !ok || b.Kind() != types.Bool {
+				return true
+			}
+			examined++
+			blank, ok := as.Lhs[1].(*ast.Ident)
+			if !ok || blank.Name != "_" {
+				return true
+			}
+			// the argument is the subject of an enclosing type switch?
+			arg, _ := ast.Unparen(call.Args[0]).(*ast.Ident)
+			guarded := false
+			if arg != nil {
+				argObj := info.Uses[arg]
+				for i := len(stack) - 1; i >= 0 && !guarded; i-- {
+					if cc, ok := stack[i].(*ast.CaseClause); ok && argObj != nil && info.Implicits[cc] == argObj {
+						guarded = true // the variable bound by `switch v := x.(type)` in this clause
+						break
+					}
+					ts, ok := stack[i].(*ast.TypeSwitchStmt)
+					if !ok {
+						continue
+					}
+					var x ast.Expr
+					switch a := ts.Assign.(type) {
+					case *ast.ExprStmt:
+						if ta, ok := a.X.(*ast.TypeAssertExpr); ok {
+							x = ta.X
+						}
+					case *ast.AssignStmt:
+						if ta, ok := a.Rhs[0].(*ast.TypeAssertExpr); ok {
+							x = ta.X
+						}
+					}
+					if xid, ok := ast.Unparen(x).(*ast.Ident); ok && info.Uses[xid] == argObj && argObj != nil {
+						guarded = true
+					}
+				}
+			}
+			if guarded {
+				return true
+			}
+			sites = append(sites, synSite{pos: as.Pos(), file: f, key: enclosingFuncName(f, as.Pos()) + ":okdrop:" + fn.Name() + "(" + types.ExprString(call.Args[0]) + ")",
+				msg: fmt.Sprintf("the success flag of %s(%s) is discarded and nothing selects a convertible value first: when the conversion fails the zero value is used as if it were the operand (0 matches 0, a fraction is truncated)", fn.Name(), types.ExprString(call.Args[0]))})
+			return true
+		})
+	}
+	return
+}
+
+const fixtureOkDrop = `package fixture
+
+func asInt(v any) (int64, bool) {
+	switch t := v.(type) {
+	case int:
+		return int64(t), true
+	case int64:
+		return t, true
+	}
+	return 0, false
+}
+
+func match(fingerprint, target any) bool {
+	switch fp := fingerprint.(type) {
+	case int, int64:
+		i0, _ := asInt(fp)
+		if i1, _ := asInt(target); i0 != i1 {
+			return false
+		}
+	}
+	return true
+}
+`
+
+func ruleOkDrop(prog *Program, rep *Report, rels ...string) {
+	rep.Rules = append(rep.Rules, "F-okdrop: the bool result of a same-package conversion helper ((T, bool), one argument) is discarded only where the argument is the subject of an enclosing type switch (the case list already selected convertible values); elsewhere a failed conversion would feed the zero value into a comparison")
+	runSynRule(prog, rep, "F-okdrop", rels, matchOkDrop, fixtureOkDrop, 1, 6)
 }
